@@ -367,7 +367,9 @@ def fits(actual: K, expected: K) -> Verdict:
     if isinstance(actual, _Top):
         return UNKNOWN
     if isinstance(actual, Union):
-        vs = [fits(m, expected) for m in actual.members if not only_none(m) or may_be_none(expected) is not False]
+        # "if it is not None it must fit": the None alternative of an optional value is judged separately
+        mem = [m for m in actual.members if not only_none(m)] or list(actual.members)
+        vs = [fits(m, expected) for m in mem]
         if not vs:
             return UNKNOWN
         if all(v is OK for v in vs):
